@@ -181,83 +181,7 @@ def run(R):
             R.viol("C01.failed-write", "remove-on-failure", "a failed disk write (RemoveFailedLocalRecord) does not remove the key from the store", hlc, hlc.lines[0])
         R.inst("C01.failed-write", "K1 must-call", "RemoveFailedLocalRecord ⇒ store.remove(key)", len(rms), okr)
 
-    R.who_may_call("C01.fs.write", WRITE_APIS, [PUTV, NRS + "::flush_historic_quoting_metrics",
-                                                # writes/reads the `network_key_version` marker file in the node's root dir (not a record file)
-                                                "ant_networking::driver::check_and_wipe_storage_dir_if_necessary"], floor=3,
-                   descr="file-writing APIs in ant_networking only in put_verified (records), flush_historic_quoting_metrics and the version-marker check",
-                   ignore_crates=_non(F, "ant_networking"))
-    R.who_may_call("C01.fs.remove", ["std::fs::remove_file"], [REMOVE, NRS + "::update_records_from_an_existing_store"], floor=2,
-                   descr="fs::remove_file in ant_networking only in remove and the start-up scan", ignore_crates=_non(F, "ant_networking"))
-    R.who_may_call("C01.fs.read", ["std::fs::read"], [NRS + "::read_from_disk", NRS + "::update_records_from_an_existing_store"], floor=2,
-                   descr="fs::read in ant_networking only in read_from_disk and the start-up scan", ignore_crates=_non(F, "ant_networking"))
-
-    # (3) name / nonce agreement
-    n = 0
-    ok = True
-    for fn, op, keysrc in ((PUTV, WRITE_APIS, None), (NRS + "::read_from_disk", ["std::fs::read"], 1), (REMOVE, ["std::fs::remove_file"], 1)):
-        for b in F.item(fn):
-            prep(b)
-            for blk in b.blocks:
-                t = blk["term"]
-                if t["k"] == "call" and not blk["cleanup"] and callee_matches(t, op):
-                    n += 1
-                    root = F.body(fn)
-                    # the path argument: join(generate_filename(..)) computed in the root function (captured by the spawned task)
-                    prep(root)
-                    ta = Taint(root, through="all")
-                    names = ta.closure(call_results([NRS + "::generate_filename"])(root))
-                    joins = [x for x in root.blocks if x["term"]["k"] == "call" and callee_matches(x["term"], ["std::path::Path::join", "std::path::PathBuf::join"])]
-                    dirs = Taint(root, through="all").closure({d for d, r, p in field_reads(root, "storage_dir")} | locals_of_type(root, "&std::path::Path", exact=True))
-                    good = [x for x in joins if op_local(x["term"]["args"][1]) in names and op_local(x["term"]["args"][0]) in dirs]
-                    if not good:
-                        ok = False
-                        R.viol("C01.path", "path:%s" % fn.split("::")[-1], "%s: the file path is not storage_dir.join(generate_filename(key))" % fn, root, t["l"])
-                        continue
-                    paths = ta.closure({x["term"]["d"][0] for x in good})
-                    if b is root:
-                        if not any(op_local(a) in paths for a in t["args"]):
-                            ok = False
-                            R.viol("C01.path", "path-arg:%s" % fn.split("::")[-1], "%s is not applied to storage_dir.join(generate_filename(key))" % t["ncallee"], b, t["l"])
-                    else:
-                        # captured into the spawned task: the closure aggregate must capture the path local
-                        caps = [s for x in root.blocks for s in x["stmts"] if s["rv"]["k"] == "agg" and s["rv"]["ak"] in ("coroutine", "closure") and s["rv"]["adt"] == b.path]
-                        if not caps or not any(op_local(o) in paths for s in caps for o in s["rv"]["ops"]):
-                            ok = False
-                            R.viol("C01.path", "path-capture:%s" % fn.split("::")[-1], "the task spawned by %s does not use the path computed from the record's key" % fn, b, t["l"])
-                    # generate_filename is applied to the record's key
-                    gf = [x for x in root.blocks if x["term"]["k"] == "call" and callee_matches(x["term"], [NRS + "::generate_filename"])]
-                    for x in gf:
-                        a = op_local(x["term"]["args"][0])
-                        if keysrc is not None:
-                            src = Taint(root).closure(PL(root, keysrc))  # the key parameter, by position
-                        else:
-                            src = Taint(root).closure({d for d, r, p in field_reads(root, "key")})
-                        if a not in src:
-                            ok = False
-                            R.viol("C01.path", "filename-key:%s" % fn.split("::")[-1], "generate_filename in %s is not applied to the record's own key" % fn, root, x["term"]["l"])
-    R.inst("C01.path", "K6 flows-to", "write, read and delete all use storage_dir.join(generate_filename(own key))", n, ok and n >= 3)
-    if n < 3:
-        R.viol("C01.path", "instance-floor", "expected fs write/read/remove sites, found %d" % n)
-    R.who_may_call("C01.nonce", [RS + "generate_nonce_for_record"], [NRS + "::get_record_from_bytes", NRS + "::prepare_record_bytes"], floor=2,
-                   descr="nonce derived by generate_nonce_for_record in both encrypt and decrypt")
-    okn = True
-    for fn, cipher_call, keyf in ((NRS + "::get_record_from_bytes", "*aead::Aead>::decrypt", "param:1"), (NRS + "::prepare_record_bytes", "*aead::Aead>::encrypt", "field:key")):
-        b = R.body("C01.nonce.key", fn)
-        if b is None:
-            continue
-        prep(b)
-        ta = Taint(b, through="all")
-        nn = ta.closure(call_results([RS + "generate_nonce_for_record"])(b))
-        cc = [x for x in b.blocks if x["term"]["k"] == "call" and not x["cleanup"] and callee_matches(x["term"], [cipher_call, cipher_call.replace(">::", "::")])]
-        if not cc or not all(op_local(x["term"]["args"][1]) in nn for x in cc):
-            okn = False
-            R.viol("C01.nonce.key", "nonce:%s" % fn.split("::")[-1], "%s does not use the nonce from generate_nonce_for_record" % fn, b, b.lines[0])
-        gn = [x for x in b.blocks if x["term"]["k"] == "call" and callee_matches(x["term"], [RS + "generate_nonce_for_record"])]
-        src = Taint(b).closure(PL(b, int(keyf.split(":")[1]))) if keyf.startswith("param") else Taint(b).closure({d for d, r, p in field_reads(b, "key")})
-        if not gn or not all(op_local(x["term"]["args"][1]) in src for x in gn):
-            okn = False
-            R.viol("C01.nonce.key", "nonce-key:%s" % fn.split("::")[-1], "nonce in %s is not derived from the record's own key" % fn, b, b.lines[0])
-    R.inst("C01.nonce.key", "K6 flows-to", "encrypt and decrypt use nonce(record's own key)", 2, okn)
+    disk_rules(R, "C01")
 
     # (3b) the only way put_verified accepts a record *without* writing it is a cache hit with byte-identical content
     pvb = R.body("C01.cache-shortcut", PUTV)
@@ -312,55 +236,8 @@ def run(R):
         if not okd:
             R.viol("C01.notify.delivery", "notice-droppable", "send_local_swarm_cmd can drop a command when the channel is full (%s): a completed write is then never indexed, a failed one never removed" % (lossy[:1] or "no awaited send"), slc, slc.lines[0])
         R.inst("C01.notify.delivery", "K1 must-call", "local swarm commands are sent with an awaited Sender::send (never try_send)", len(sends) + len(lossy), okd)
-    # (5) remove completeness
-    rm = R.body("C01.remove", REMOVE)
-    if rm is not None:
-        prep(rm)
+    remove_and_mark_rules(R, "C01")
 
-        def on_field(callee, field):
-            def f(body):
-                out = []
-                refs = Taint(body).closure({d for d, r, p in field_reads(body, field)})
-                for b in body.blocks:
-                    t = b["term"]
-                    if t["k"] == "call" and not b["cleanup"] and callee_matches(t, callee) and op_local(t["args"][0]) in refs:
-                        out.append(b["id"])
-                return out
-            return f
-        R.must_pass("C01.remove", rm, [("records.remove(k)", BlockSink(on_field(["std::collections::hash::map::HashMap::remove"], "records"), "records.remove")),
-                                       ("records_cache.remove(k)", BlockSink(on_field([RS + "RecordCache::remove"], "records_cache"), "cache.remove")),
-                                       ("spawn(fs::remove_file)", CallSink("tokio::task::spawn::spawn"))],
-                    descr="remove always drops the key from index and cache and spawns the file delete")
-        # distance index removed whenever the key was indexed
-        R.gate("C01.remove.by_distance", rm, BlockSink(on_field(["alloc::collections::btree::map::BTreeMap::remove"], "records_by_distance"), "records_by_distance.remove"),
-               [[CallGuard(["std::collections::hash::map::HashMap::remove"], ("Some",), "key was indexed")]], descr="distance entry removed when the key was indexed")
-        hit = CallGuard(["std::collections::hash::map::HashMap::remove"], ("Some",), "key was indexed")
-        n_, acc, rej = hit.edges(rm)
-        g = cfg_of(rm)
-        bd = set(on_field(["alloc::collections::btree::map::BTreeMap::remove"], "records_by_distance")(rm))
-        rets = {b["id"] for b in rm.blocks if b["term"]["k"] == "return"}
-        okd = bool(acc) and all(not (g.reach((d,), avoid=bd) & rets) for _, d in acc)
-        if not okd:
-            R.viol("C01.remove.by_distance.always", "skippable:records_by_distance.remove", "remove can drop an indexed key without dropping its distance entry", rm, rm.lines[0])
-        R.inst("C01.remove.by_distance.always", "K5 must-follow", "indexed key ⇒ distance entry removed on every path", len(acc), okd)
-        # (5b) the write-completion notice always registers the key (index + distance index): a completed accepted write is readable
-        mk = R.body("C01.mark.always", MARK)
-        if mk is not None:
-            prep(mk)
-            R.must_pass("C01.mark.always", mk, [("records.insert(key, ..)", BlockSink(on_field(["std::collections::hash::map::HashMap::insert"], "records"), "records.insert")),
-                                                ("records_by_distance.insert(.., key)", BlockSink(on_field(["alloc::collections::btree::map::BTreeMap::insert"], "records_by_distance"), "records_by_distance.insert"))],
-                        descr="mark_as_stored registers the key in the index and the distance index on every path")
-            ta = Taint(mk, through="all")
-            keyp = ta.closure(PL(mk, 1))
-            ins = [b for b in mk.blocks if b["term"]["k"] == "call" and not b["cleanup"] and b["id"] in on_field(["std::collections::hash::map::HashMap::insert"], "records")(mk)]
-            okk = bool(ins) and all(op_local(b["term"]["args"][1]) in keyp for b in ins)
-            if not okk:
-                R.viol("C01.mark.key", "mark-key", "mark_as_stored does not index the key it was notified about", mk, mk.lines[0])
-            R.inst("C01.mark.key", "K6 flows-to", "records.insert(key of the completed write, ..)", len(ins), okk)
-        dels = [c for b in F.item(REMOVE) if b.kind == "closure" for c in b.calls if c["ncallee"] == "std::fs::remove_file"]
-        if not dels:
-            R.viol("C01.remove.file", "delete-missing", "the task spawned by remove does not delete the record file", rm, rm.lines[0])
-        R.inst("C01.remove.file", "K1 must-call", "spawned task deletes the record file", len(dels), bool(dels))
 
 
 def _tuple_ops(body, local):
@@ -398,3 +275,142 @@ def get_serves_unsettled(R, rule):
         R.viol(rule, "cache-behind-index", "NodeRecordStore::get consults the index before the cache: a validated write whose disk write is still in flight is not served, "
                "so the counter/merge comparison of a following update runs against nothing", get, get.lines[0])
     R.inst(rule, "K4 gate (must-reach)", "the cache hit of get() is reachable for a key that is not indexed yet (in-flight write)", len(hit_somes), ok)
+
+
+def disk_rules(R, pfx="C01"):
+    """Who touches record files and how (shared with C02): file APIs only in the owning functions; write, read and delete all use
+    storage_dir.join(generate_filename(own key)); encrypt and decrypt use the nonce of the record's own key."""
+    F = R.F
+    R.who_may_call(pfx + ".fs.write", WRITE_APIS, [PUTV, NRS + "::flush_historic_quoting_metrics",
+                                                # writes/reads the `network_key_version` marker file in the node's root dir (not a record file)
+                                                "ant_networking::driver::check_and_wipe_storage_dir_if_necessary"], floor=3,
+                   descr="file-writing APIs in ant_networking only in put_verified (records), flush_historic_quoting_metrics and the version-marker check",
+                   ignore_crates=_non(F, "ant_networking"))
+    R.who_may_call(pfx + ".fs.remove", ["std::fs::remove_file"], [REMOVE, NRS + "::update_records_from_an_existing_store"], floor=2,
+                   descr="fs::remove_file in ant_networking only in remove and the start-up scan", ignore_crates=_non(F, "ant_networking"))
+    R.who_may_call(pfx + ".fs.read", ["std::fs::read"], [NRS + "::read_from_disk", NRS + "::update_records_from_an_existing_store"], floor=2,
+                   descr="fs::read in ant_networking only in read_from_disk and the start-up scan", ignore_crates=_non(F, "ant_networking"))
+
+    # (3) name / nonce agreement
+    n = 0
+    ok = True
+    for fn, op, keysrc in ((PUTV, WRITE_APIS, None), (NRS + "::read_from_disk", ["std::fs::read"], 1), (REMOVE, ["std::fs::remove_file"], 1)):
+        for b in F.item(fn):
+            prep(b)
+            for blk in b.blocks:
+                t = blk["term"]
+                if t["k"] == "call" and not blk["cleanup"] and callee_matches(t, op):
+                    n += 1
+                    root = F.body(fn)
+                    # the path argument: join(generate_filename(..)) computed in the root function (captured by the spawned task)
+                    prep(root)
+                    ta = Taint(root, through="all")
+                    names = ta.closure(call_results([NRS + "::generate_filename"])(root))
+                    joins = [x for x in root.blocks if x["term"]["k"] == "call" and callee_matches(x["term"], ["std::path::Path::join", "std::path::PathBuf::join"])]
+                    dirs = Taint(root, through="all").closure({d for d, r, p in field_reads(root, "storage_dir")} | locals_of_type(root, "&std::path::Path", exact=True))
+                    good = [x for x in joins if op_local(x["term"]["args"][1]) in names and op_local(x["term"]["args"][0]) in dirs]
+                    if not good:
+                        ok = False
+                        R.viol(pfx + ".path", "path:%s" % fn.split("::")[-1], "%s: the file path is not storage_dir.join(generate_filename(key))" % fn, root, t["l"])
+                        continue
+                    paths = ta.closure({x["term"]["d"][0] for x in good})
+                    if b is root:
+                        if not any(op_local(a) in paths for a in t["args"]):
+                            ok = False
+                            R.viol(pfx + ".path", "path-arg:%s" % fn.split("::")[-1], "%s is not applied to storage_dir.join(generate_filename(key))" % t["ncallee"], b, t["l"])
+                    else:
+                        # captured into the spawned task: the closure aggregate must capture the path local
+                        caps = [s for x in root.blocks for s in x["stmts"] if s["rv"]["k"] == "agg" and s["rv"]["ak"] in ("coroutine", "closure") and s["rv"]["adt"] == b.path]
+                        if not caps or not any(op_local(o) in paths for s in caps for o in s["rv"]["ops"]):
+                            ok = False
+                            R.viol(pfx + ".path", "path-capture:%s" % fn.split("::")[-1], "the task spawned by %s does not use the path computed from the record's key" % fn, b, t["l"])
+                    # generate_filename is applied to the record's key
+                    gf = [x for x in root.blocks if x["term"]["k"] == "call" and callee_matches(x["term"], [NRS + "::generate_filename"])]
+                    for x in gf:
+                        a = op_local(x["term"]["args"][0])
+                        if keysrc is not None:
+                            src = Taint(root).closure(PL(root, keysrc))  # the key parameter, by position
+                        else:
+                            src = Taint(root).closure({d for d, r, p in field_reads(root, "key")})
+                        if a not in src:
+                            ok = False
+                            R.viol(pfx + ".path", "filename-key:%s" % fn.split("::")[-1], "generate_filename in %s is not applied to the record's own key" % fn, root, x["term"]["l"])
+    R.inst(pfx + ".path", "K6 flows-to", "write, read and delete all use storage_dir.join(generate_filename(own key))", n, ok and n >= 3)
+    if n < 3:
+        R.viol(pfx + ".path", "instance-floor", "expected fs write/read/remove sites, found %d" % n)
+    R.who_may_call(pfx + ".nonce", [RS + "generate_nonce_for_record"], [NRS + "::get_record_from_bytes", NRS + "::prepare_record_bytes"], floor=2,
+                   descr="nonce derived by generate_nonce_for_record in both encrypt and decrypt")
+    okn = True
+    for fn, cipher_call, keyf in ((NRS + "::get_record_from_bytes", "*aead::Aead>::decrypt", "param:1"), (NRS + "::prepare_record_bytes", "*aead::Aead>::encrypt", "field:key")):
+        b = R.body(pfx + ".nonce.key", fn)
+        if b is None:
+            continue
+        prep(b)
+        ta = Taint(b, through="all")
+        nn = ta.closure(call_results([RS + "generate_nonce_for_record"])(b))
+        cc = [x for x in b.blocks if x["term"]["k"] == "call" and not x["cleanup"] and callee_matches(x["term"], [cipher_call, cipher_call.replace(">::", "::")])]
+        if not cc or not all(op_local(x["term"]["args"][1]) in nn for x in cc):
+            okn = False
+            R.viol(pfx + ".nonce.key", "nonce:%s" % fn.split("::")[-1], "%s does not use the nonce from generate_nonce_for_record" % fn, b, b.lines[0])
+        gn = [x for x in b.blocks if x["term"]["k"] == "call" and callee_matches(x["term"], [RS + "generate_nonce_for_record"])]
+        src = Taint(b).closure(PL(b, int(keyf.split(":")[1]))) if keyf.startswith("param") else Taint(b).closure({d for d, r, p in field_reads(b, "key")})
+        if not gn or not all(op_local(x["term"]["args"][1]) in src for x in gn):
+            okn = False
+            R.viol(pfx + ".nonce.key", "nonce-key:%s" % fn.split("::")[-1], "nonce in %s is not derived from the record's own key" % fn, b, b.lines[0])
+    R.inst(pfx + ".nonce.key", "K6 flows-to", "encrypt and decrypt use nonce(record's own key)", 2, okn)
+
+
+
+def remove_and_mark_rules(R, pfx="C01"):
+    """remove() drops the key from index, distance index and cache and spawns the file delete on every path; the completion notice
+    registers the key on every path (shared with C02: completed removals stay removed, completed writes are listed)."""
+    F = R.F
+    # (5) remove completeness
+    rm = R.body(pfx + ".remove", REMOVE)
+    if rm is not None:
+        prep(rm)
+
+        def on_field(callee, field):
+            def f(body):
+                out = []
+                refs = Taint(body).closure({d for d, r, p in field_reads(body, field)})
+                for b in body.blocks:
+                    t = b["term"]
+                    if t["k"] == "call" and not b["cleanup"] and callee_matches(t, callee) and op_local(t["args"][0]) in refs:
+                        out.append(b["id"])
+                return out
+            return f
+        R.must_pass(pfx + ".remove", rm, [("records.remove(k)", BlockSink(on_field(["std::collections::hash::map::HashMap::remove"], "records"), "records.remove")),
+                                       ("records_cache.remove(k)", BlockSink(on_field([RS + "RecordCache::remove"], "records_cache"), "cache.remove")),
+                                       ("spawn(fs::remove_file)", CallSink("tokio::task::spawn::spawn"))],
+                    descr="remove always drops the key from index and cache and spawns the file delete")
+        # distance index removed whenever the key was indexed
+        R.gate(pfx + ".remove.by_distance", rm, BlockSink(on_field(["alloc::collections::btree::map::BTreeMap::remove"], "records_by_distance"), "records_by_distance.remove"),
+               [[CallGuard(["std::collections::hash::map::HashMap::remove"], ("Some",), "key was indexed")]], descr="distance entry removed when the key was indexed")
+        hit = CallGuard(["std::collections::hash::map::HashMap::remove"], ("Some",), "key was indexed")
+        n_, acc, rej = hit.edges(rm)
+        g = cfg_of(rm)
+        bd = set(on_field(["alloc::collections::btree::map::BTreeMap::remove"], "records_by_distance")(rm))
+        rets = {b["id"] for b in rm.blocks if b["term"]["k"] == "return"}
+        okd = bool(acc) and all(not (g.reach((d,), avoid=bd) & rets) for _, d in acc)
+        if not okd:
+            R.viol(pfx + ".remove.by_distance.always", "skippable:records_by_distance.remove", "remove can drop an indexed key without dropping its distance entry", rm, rm.lines[0])
+        R.inst(pfx + ".remove.by_distance.always", "K5 must-follow", "indexed key ⇒ distance entry removed on every path", len(acc), okd)
+        # (5b) the write-completion notice always registers the key (index + distance index): a completed accepted write is readable
+        mk = R.body(pfx + ".mark.always", MARK)
+        if mk is not None:
+            prep(mk)
+            R.must_pass(pfx + ".mark.always", mk, [("records.insert(key, ..)", BlockSink(on_field(["std::collections::hash::map::HashMap::insert"], "records"), "records.insert")),
+                                                ("records_by_distance.insert(.., key)", BlockSink(on_field(["alloc::collections::btree::map::BTreeMap::insert"], "records_by_distance"), "records_by_distance.insert"))],
+                        descr="mark_as_stored registers the key in the index and the distance index on every path")
+            ta = Taint(mk, through="all")
+            keyp = ta.closure(PL(mk, 1))
+            ins = [b for b in mk.blocks if b["term"]["k"] == "call" and not b["cleanup"] and b["id"] in on_field(["std::collections::hash::map::HashMap::insert"], "records")(mk)]
+            okk = bool(ins) and all(op_local(b["term"]["args"][1]) in keyp for b in ins)
+            if not okk:
+                R.viol(pfx + ".mark.key", "mark-key", "mark_as_stored does not index the key it was notified about", mk, mk.lines[0])
+            R.inst(pfx + ".mark.key", "K6 flows-to", "records.insert(key of the completed write, ..)", len(ins), okk)
+        dels = [c for b in F.item(REMOVE) if b.kind == "closure" for c in b.calls if c["ncallee"] == "std::fs::remove_file"]
+        if not dels:
+            R.viol(pfx + ".remove.file", "delete-missing", "the task spawned by remove does not delete the record file", rm, rm.lines[0])
+        R.inst(pfx + ".remove.file", "K1 must-call", "spawned task deletes the record file", len(dels), bool(dels))
